@@ -45,6 +45,7 @@ def open_reader(fc, data, backend, preload=False):
 
 
 def run(run):
+    run.mc('MC_Reader', f'MC_Reader_C07_{run.tier}')
     rng = np.random.default_rng(run.seed)
     quick = run.tier == 'quick'
     fx = inputs.fixture_sgz()
@@ -114,6 +115,13 @@ def run(run):
                         mask_reads += len(meta)
                         run.check(irregular and mask_reads <= 1 or (irregular and mode == 'cold' and len(meta) <= 1),
                                   'C07.metadata-once', case, meta, 'one mask read per reader (irregular only)')
+                    if mode == 'cold' and ans['model']['kind'] == 'value':
+                        # code -> spec: the recorded range reads are exactly those SgzReader!Call predicts
+                        got = sorted((off - hb, n) for off, n, _ in reads)
+                        if got == sorted(tuple(x) for x in ans['model']['reads']):
+                            run.traces_validated += 1
+                        else:
+                            run.drift(f"reads of {op}{a} on {fc.label}: code {got[:4]} model {ans['model']['reads'][:4]}")
                     blocks, outside, dup = touched(reads, hb, db)
                     run.check(outside == 0, f'C07.data-section-only[{op}]', case,
                               {'bytes_outside': outside, 'reads': reads[:6]}, 0)
